@@ -184,11 +184,16 @@ func cloneCase(c *policyCase) *policyCase {
 
 var nCase int
 
+var sharedSigner = &signedexchange.Signer{}
+
 func runCase(r *mon.Run, id *gen.Identity, c *policyCase, class string, sampleEvery int) {
 	nCase++
 	want, why := expect(c)
 	spec := &gen.SXGSpec{Version: c.ver, URL: c.url, Method: c.method, ReqHeaders: http.Header(c.reqHeaders), Status: c.status, RespHeaders: http.Header(c.respHeaders),
 		Payload: []byte("payload-" + c.desc), RecordSize: 16, Date: time.Unix(c.date, 0), Expires: time.Unix(c.date+c.lifetime, 0), ValidityURL: c.validityURL, ID: id}
+	if nCase%2 == 0 {
+		spec.Shared = sharedSigner // one Signer object signs every second exchange of the run (a signing service renewing signatures)
+	}
 	e, _, err := spec.Build()
 	key := fmt.Sprintf("pol:%s:%s:%s", c.ver, class, c.desc)
 	det := map[string]any{"version": string(c.ver), "class": class, "case": c.desc, "url": c.url, "validity_url": c.validityURL, "method": c.method, "request_headers": c.reqHeaders,
